@@ -358,20 +358,22 @@ theorem resolveOps_kinds : ∀ (ops : List (Str × Kind)) (used : List Str) (rs 
     cases h
     simp [resolveOps_kinds ops _ rs' hrs]
 
-/-- The invariant of the field loop of `newMessage`, read backwards. -/
+/-- The invariant of the field loop of `newMessage`, read backwards: every resolved name is new with
+respect to the names in use, the Go names are pairwise distinct, and no Go name is the `Get` method of a
+field. -/
 theorem resolveOps_spec : ∀ (ops : List (Str × Kind)) (used : List Str) (rs : List (Str × Kind)),
-    resolveOps used ops = some rs → NoGetClash rs →
+    resolveOps used ops = some rs →
     (∀ p ∈ rs, p.1 ∉ used ∧ (p.2.hasGetter = true → GET ++ p.1 ∉ used)) ∧
     (rs.map (·.1)).Nodup ∧
     (∀ p ∈ rs, ∀ q ∈ rs, q.2.hasGetter = true → p.1 ≠ GET ++ q.1)
-  | [], _, rs, h, _ => by simp [resolveOps] at h; subst h; simp
-  | (n, k) :: ops, used, rs, h, hc => by
+  | [], _, rs, h => by simp [resolveOps] at h; subst h; simp
+  | (n, k) :: ops, used, rs, h => by
     unfold resolveOps at h
     simp only [Option.bind_eq_some_iff] at h
     obtain ⟨r, hr, rs', hrs, h⟩ := h
     cases h
     obtain ⟨hr1, hr2, -⟩ := mkUnique_spec hr
-    obtain ⟨ih1, ih2, ih3⟩ := resolveOps_spec ops _ rs' hrs hc.tail
+    obtain ⟨ih1, ih2, ih3⟩ := resolveOps_spec ops _ rs' hrs
     -- what membership in the new `used` means for the names of the tail
     have key : ∀ p ∈ rs', p.1 ≠ r ∧ p.1 ∉ used ∧
         (p.2.hasGetter = true → GET ++ p.1 ≠ r ∧ GET ++ p.1 ∉ used) ∧
@@ -379,14 +381,8 @@ theorem resolveOps_spec : ∀ (ops : List (Str × Kind)) (used : List Str) (rs :
       intro p hp
       obtain ⟨a, b⟩ := ih1 p hp
       cases hk : k.hasGetter
-      · -- a oneof: `used' = r :: used.filter (· != GET ++ r)`
-        simp only [markUsed, hk, Bool.false_eq_true, ↓reduceIte, List.mem_cons, List.mem_filter,
-          bne_iff_ne, ne_eq, not_or, not_and, Decidable.not_not] at a b
-        have hko : k = Kind.oneof := by cases k <;> simp_all [Kind.hasGetter]
-        have hne : p.1 ≠ GET ++ r := hc (r, k) (List.mem_cons_self ..) hko p (List.mem_cons_of_mem _ hp)
-        refine ⟨a.1, fun hm => hne (a.2 hm), fun hg => ?_, fun h => by cases h⟩
-        obtain ⟨b1, b2⟩ := b hg
-        exact ⟨b1, fun hm => a.1 (get_append_inj (b2 hm))⟩
+      · simp only [markUsed, hk, Bool.false_eq_true, ↓reduceIte, List.mem_cons, not_or] at a b
+        exact ⟨a.1, a.2, fun hg => ⟨(b hg).1, (b hg).2⟩, fun h => by cases h⟩
       · simp only [markUsed, hk, ↓reduceIte, List.mem_cons, not_or] at a b
         exact ⟨a.2.1, a.2.2, fun hg => ⟨(b hg).2.1, (b hg).2.2⟩, fun _ => a.1⟩
     refine ⟨?_, ?_, ?_⟩
